@@ -131,6 +131,12 @@ def single_faults(tc: bool, tier: str) -> List[List]:
     for role in ("subscriber", "logger", "acked", "failsub", "closedsub", "subscriber+logger", "ackcopy", "ackcopy2"):
         for how in ("fin", "rst"):
             out.append(["wdie", role, how])
+    # (vii-b) clients that are momentarily slow (not writable in one round - they keep reading afterwards) while something is due
+    # to them, including the notice about the very message they could not take
+    for role in ("failsub", "suball", "closedsub", "infosub", "timingsub"):
+        for trig in ("publish", "ctl", "leave", "timers"):
+            for nslow in (1, 2):
+                out.append(["slow", role, trig, nslow])
     # (viii) asynchronous deaths: a recipient dies right before the manager's k-th send of a round
     for role in ("subscriber", "suball", "logger", "infosub", "closedsub"):
         for how in ("fin", "rst"):
@@ -306,6 +312,34 @@ def apply_fault(cx: Ctx, fault: Sequence, name: str = "X", hid=None) -> List[str
         # the bystander publishes in the same round: the manager meets the dead connections on its write side
         w.clients["P"].send(P.mkframe(T1, b"wdie", timecode=tc, src_mod_id=21))
         return [name, "P"]
+    if kind == "slow":
+        _, role, trig, nslow = fault
+        tc = cx.tc
+        subs = {"failsub": (T1, P.MT_FAILED_MESSAGE), "suball": (P.ALL_MESSAGE_TYPES,), "closedsub": (T1, P.MT_CLIENT_CLOSED, P.MT_FAILED_MESSAGE),
+                "infosub": (T1, P.MT_CLIENT_INFO, P.MT_FAILED_MESSAGE), "timingsub": (P.MT_TIMING_MESSAGE, P.MT_MESSAGE_TRAFFIC, P.MT_FAILED_MESSAGE)}[role]
+        names = []
+        for i in range(nslow):
+            D = position(cx, f"{name}{i}", "connected", hid if i == 0 else None)
+            for t in subs:
+                cx.sub(D, D.mid, t)
+            names.append(f"{name}{i}")
+        w.settle()
+        if trig == "leave":
+            E = position(cx, name + "E", "connected", None)
+            w.settle()
+            E.send(P.mkframe(P.MT_DISCONNECT, timecode=tc, src_mod_id=E.mid))
+        elif trig == "publish":
+            w.clients["P"].send(P.mkframe(T1, b"slow", timecode=tc, src_mod_id=21))
+        elif trig == "ctl":
+            w.clients["P"].send(P.mkframe(P.MT_MODULE_READY, P.P_READY.pack(9), timecode=tc, src_mod_id=21)
+                                + P.mkframe(P.MT_SUBSCRIBE, P.p_sub(1003), timecode=tc, src_mod_id=21))
+        else:
+            w.clients["P"].send(P.mkframe(T1, b"slow", timecode=tc, src_mod_id=21))
+            w.settle()
+            w.tick(1.05)
+        if w.alive:
+            w.step(0, nonwritable=names)
+        return []
     if kind == "mass-die":
         _, n, sub = fault
         tc = cx.tc
